@@ -2,6 +2,7 @@ package c06
 
 import (
 	"strings"
+	"sync"
 	"encoding/json"
 	"fmt"
 	"os"
@@ -431,6 +432,86 @@ func TestEmptyPrograms(t *testing.T) {
 	}
 	rec(nil)
 	evid.Exhaustive("sequences of up to three statement-less lines x line-end convention", n)
+}
+
+// TestConcurrentParses: the tree of a text does not depend on what else is being parsed at the same moment: several
+// goroutines parse different texts (string literals with escapes, quotes, line breaks, characters beyond ASCII; random
+// programs) over and over; every parse yields the tree the text was printed from.
+func TestConcurrentParses(t *testing.T) {
+	p := gen.ProfileSyntax()
+	runes := []rune{'a', 'z', '"', '\\', '\n', '\'', 'é', '\t', '注', ' ', '0', '\r'}
+	rk.Check(t, "concurrent", 9, evid.Scale(40, 400), func(t *rapid.T) {
+		const G = 8
+		texts, wants := make([]string, G), make([]string, G)
+		for g := 0; g < G; g++ {
+			var prog []*gen.Node
+			ns := rapid.IntRange(1, 4).Draw(t, "nstrings")
+			for i := 0; i < ns; i++ {
+				body := string(rapid.SliceOfN(rapid.SampledFrom(runes), 1, 24).Draw(t, "string"))
+				prog = append(prog, gen.NSet(fmt.Sprintf("s%d", i), gen.NStr(fmt.Sprintf("<%d.%d>%s", g, i, body))))
+			}
+			if rapid.Bool().Draw(t, "with-program") {
+				prog = append(prog, gen.Program(t, p)...)
+			}
+			lay := gen.Layout(gen.Minimal{})
+			if rapid.Bool().Draw(t, "random-layout") {
+				lay = gen.RandomLayout(t)
+			}
+			texts[g], wants[g] = gen.Print(prog, lay), gen.ShapeAll(prog)
+			// alone first
+			if got, _, err := parseShape(texts[g]); err != nil || got != wants[g] {
+				rk.Fail(t, "concurrent", replay{Src: texts[g], Want: wants[g], Got: got}, "parsed alone, the text does not give its tree: %v\nsource: %q", err, texts[g])
+			}
+		}
+		rounds := evid.Scale(60, 200)
+		type bad struct {
+			g        int
+			got, err string
+		}
+		var mu sync.Mutex
+		var bads []bad
+		var wg sync.WaitGroup
+		for g := 0; g < G; g++ {
+			wg.Add(1)
+			go func(g int) {
+				defer wg.Done()
+				for r := 0; r < rounds; r++ {
+					stmts, err, crash := impl.Parse("c06.p", texts[g])
+					b := bad{g: g}
+					switch {
+					case crash != nil:
+						b.err = "parser panicked: " + fmt.Sprint(crash.Value)
+					case err != nil:
+						b.err = "rejected: " + err.Error()
+					default:
+						tree, c := conv.Stmts(stmts)
+						if c.Err != nil {
+							b.err = "malformed tree: " + c.Err.Error()
+						} else if got := gen.ShapeAll(tree); got != wants[g] {
+							b.got = got
+						} else {
+							continue
+						}
+					}
+					mu.Lock()
+					bads = append(bads, b)
+					mu.Unlock()
+					return
+				}
+			}(g)
+		}
+		wg.Wait()
+		if len(bads) > 0 {
+			b := bads[0]
+			for _, x := range bads {
+				if x.g < b.g {
+					b = x
+				}
+			}
+			rk.Fail(t, "concurrent", replay{Src: texts[b.g], Want: wants[b.g], Got: b.got, Layout: "parsed while 7 other texts were being parsed"}, "parsed next to other parses, the text does not give its tree (%s)\nsource: %q\nwant: %s\ngot:  %s", b.err, texts[b.g], wants[b.g], b.got)
+		}
+		evid.Case("concurrent:"+texts[0]+texts[1], true, "concurrent-parses")
+	})
 }
 
 func TestRedundantParens(t *testing.T) {
